@@ -11,6 +11,7 @@
 -/
 import Gama.Lemmas.DataParserValues
 import Gama.Lemmas.PureDataLang
+import Gama.Lemmas.DataParserValuesExamples
 namespace Gama.Props.C11
 open Gama Gama.DP Gama.Lit
 
@@ -93,31 +94,31 @@ theorem C11_dp_number_accept_or_located (pre post : List CEvent) (o : List Bool)
   · rw [← C11_dp_numberOk_language] at hn
     simpa using hn
 
+/-- DOCUMENT level, direction "accepted ⇒ every field is in its language": in a run that records no error (by
+    `C11_dp_value_run_located` that is: a document that is not refused) EVERY end event handled by a field handler found its pooled
+    text in the language of its chain — whatever the oracle bits.
+    `_partial`: the converse (every field in its language ⇒ accepted) needs the conditions that stay oracle bits (`Cond.other`, the
+    guard conjuncts) and the element structure to be right as well; what is proved in that direction is the per-element statement
+    `C11_dp_field_accept_or_located` (a), after any clean prefix. -/
+theorem C11_dp_accepted_fields_in_language_partial (pre post : List CEvent) (o : List Bool) (chain : List XKind) (g : Guard)
+    (hacc : (crun CSt.init (pre ++ .stop o :: post)).st.err = none)
+    (hh : isField (cEndProg (etag (crun CSt.init pre).st.state)) = some (chain, g)) :
+    pureOk chain (crun CSt.init pre).buf = true := by
+  have hclean : (crun CSt.init pre).st.err = none := by
+    cases he : (crun CSt.init pre).st.err with
+    | none => rfl
+    | some e =>
+      have := crun_err_preserved (.stop o :: post) _ e he
+      rw [← crun_append, hacc] at this
+      cases this
+  cases hp : pureOk chain (crun CSt.init pre).buf
+  · have := (field_located pre post o chain g hclean hh hp).1
+    rw [hacc] at this; cases this
+  · rfl
+
 /-! ### non-vacuity -/
 
-section Examples
-
-private def el (t : Tag) (txt : String) (o : List Bool := []) : List CEvent := [.start t true [], .text txt.toList [], .stop o]
-
-/-- head of a g3 document: constants with an ellipsoid given by a / b (two children pooled into one buffer), a point -/
-private def headDoc : List CEvent :=
-  [.start .t_gama_data false [false], .text ['\n'] []] ++ el .t_text "demo" ++
-  [.start .t_g3_model true [], .start .t_constants true []] ++ el .t_apriori_sd " 10 " ++
-  [.start .t_ang_gons true [], .stop [], .start .t_ellipsoid true []] ++ el .t_a "6378137" ++ el .t_b "6356752.3" ++
-  [.stop [], .stop [], .start .t_fixed true [], .start .t_n true [], .stop [], .stop [],
-   .start .t_point true []] ++ el .t_id "A" [false] ++ el .t_x "1" ++ el .t_y "-2.5e0" ++ el .t_z ".3" ++ [.stop [false]]
-
-/-- an `<obs>` with a distance (`val` = the pieces of its character data), its `<stdev>`, a vector with the given `<dz>` text -/
-private def obsDoc (dz : String) (val : List String := ["10.5"]) : List CEvent :=
-  [.start .t_obs true [], .start .t_dist true []] ++ el .t_from "A" ++ el .t_to "B" ++
-  [.start .t_val true []] ++ val.map (fun p => CEvent.text p.toList []) ++ [.stop []] ++
-  [.start .t_stdev true [], .text "5".toList [], .stop [], .stop [],
-   .start .t_vector true []] ++ el .t_from "A" ++ el .t_to "B" ++ el .t_dx "1" ++ el .t_dy "+2" ++ el .t_dz dz
-
-/-- `</vector>`, the covariance matrix, then everything is closed -/
-private def tailDoc : List CEvent :=
-  [.stop [], .start .t_covmat true []] ++ el .t_dim "4" ++ el .t_band "0" ++ el .t_flt "25" ++ el .t_flt "1" ++ el .t_flt "1" ++ el .t_flt "1" ++
-  [.stop [false, false, false, false, false], .stop [false, false, false, false], .stop [], .stop []]
+open Gama.DP.Ex
 
 /-- a valid g3 document is accepted by `crun`: no error, `s_stop`, the buffer is empty; no oracle bit says anything about a number
     (the bits present are: `xmlns` attribute, point id, N/E status, dimension tests / Cholesky of the cov-mat, tests of `</obs>`) -/
@@ -162,7 +163,5 @@ example :
 
 /-- the field handlers of the current tree (shape recognised by `isField`) -/
 example : (EndH.all.filter (fun h => (isField (cEndProg h)).isSome)).length = 19 := by decide +kernel
-
-end Examples
 
 end Gama.Props.C11
